@@ -1,3 +1,6 @@
+import contextlib
+from json import JSONDecodeError
+
 from circuits import Component, handler
 from circuits.core import Value
 from circuits.net.events import write
@@ -26,11 +29,16 @@ class Protocol(Component):
         packets = self.__buffer.split(DELIMITER)
         self.__buffer = b''
 
-        for packet in packets:
-            try:
+        # everything but the last piece was terminated by a delimiter
+        for packet in packets[:-1]:
+            with contextlib.suppress(ValueError):
                 self.__process_packet(packet)
-            except ValueError:
-                self.__buffer = packet
+
+        try:
+            self.__process_packet(packets[-1])
+        except ValueError:
+            # not (yet) a complete packet: keep it for the next read
+            self.__buffer = packets[-1]
 
     @handler(channel='node_result', priority=100)
     def result_handler(self, event, *args, **kwargs):
@@ -86,6 +94,9 @@ class Protocol(Component):
     def __process_packet_call(self, packet):
         try:
             event, id = load_event(packet)
+        except JSONDecodeError:
+            # not JSON (yet): add_buffer decides whether to wait for more
+            raise
         except (TypeError, ValueError, LookupError):
             return
 
@@ -102,6 +113,9 @@ class Protocol(Component):
     def __process_packet_value(self, packet):
         try:
             value, id, error, meta = load_value(packet)
+        except JSONDecodeError:
+            # not JSON (yet): add_buffer decides whether to wait for more
+            raise
         except (TypeError, ValueError, LookupError):
             return
 
